@@ -31,6 +31,9 @@ type V6OptionTable struct {
 	NTP      []uint16          // codes with a case in parseNTPSuboption, ascending
 	TopNames map[uint16]string // code -> constant name
 	NTPNames map[uint16]string
+	// cross-check: what the source text of ParseOption / parseNTPSuboption lists (nil when the sources no longer have a switch)
+	SourceTop, SourceNTP []uint16
+	SourceNote           string
 }
 
 // V6SourceDir returns the directory holding the dhcpv6 sources compiled into this binary.
@@ -43,8 +46,77 @@ func V6SourceDir() string {
 	return filepath.Dir(file)
 }
 
-// ExtractV6OptionTable parses the sources and returns the switch tables.
+// ExtractV6OptionTable returns the set of option codes the library under test gives a typed
+// reading. The set is measured on the compiled library itself, so it follows any refactoring of
+// the parser (switch, table, registry): code k is "parsed" iff ParseOption(k, <empty value>)
+// returns an error or a value that is not the generic opaque option - an unknown code is always
+// kept verbatim. NTP sub-option codes are probed the same way inside an NTP server option.
+// The source-level extraction (case constants of the ParseOption switch) is kept as a
+// cross-check where the sources still have that shape; a disagreement is reported in the
+// evidence, never as a verdict.
 func ExtractV6OptionTable() (*V6OptionTable, error) {
+	t := &V6OptionTable{Dir: V6SourceDir(), TopNames: map[uint16]string{}, NTPNames: map[uint16]string{}}
+	typed := func(o dhcpv6.Option, err error) bool {
+		if err != nil {
+			return true
+		}
+		_, generic := o.(*dhcpv6.OptionGeneric)
+		return !generic
+	}
+	for k := 0; k <= 0xffff; k++ {
+		var o dhcpv6.Option
+		var err error
+		func() {
+			defer func() {
+				if recover() != nil {
+					err = fmt.Errorf("panic")
+				}
+			}()
+			o, err = dhcpv6.ParseOption(dhcpv6.OptionCode(k), []byte{})
+		}()
+		if typed(o, err) {
+			t.Top = append(t.Top, uint16(k))
+			t.TopNames[uint16(k)] = dhcpv6.OptionCode(k).String()
+		}
+	}
+	for k := 0; k <= 0xffff; k++ {
+		var o dhcpv6.Option
+		var err error
+		func() {
+			defer func() {
+				if recover() != nil {
+					err = fmt.Errorf("panic")
+				}
+			}()
+			o, err = dhcpv6.ParseOption(dhcpv6.OptionNTPServer, []byte{byte(k >> 8), byte(k), 0, 0})
+		}()
+		is := err != nil
+		if n, ok := o.(*dhcpv6.OptNTPServer); ok && err == nil {
+			is = len(n.Suboptions) != 1 || typed(n.Suboptions[0], nil)
+		}
+		if is {
+			t.NTP = append(t.NTP, uint16(k))
+			t.NTPNames[uint16(k)] = fmt.Sprintf("NTP sub-option %d", k)
+		}
+	}
+	if len(t.Top) == 0 {
+		return nil, fmt.Errorf("ParseOption gives no code a typed reading")
+	}
+	if st, err := ExtractV6OptionTableFromSource(); err == nil {
+		for k, n := range st.TopNames {
+			if _, ok := t.TopNames[k]; ok {
+				t.TopNames[k] = n
+			}
+		}
+		t.SourceTop, t.SourceNTP = st.Top, st.NTP
+	} else {
+		t.SourceNote = err.Error()
+	}
+	return t, nil
+}
+
+// ExtractV6OptionTableFromSource parses the sources and returns the switch tables.
+func ExtractV6OptionTableFromSource() (*V6OptionTable, error) {
 	dir := V6SourceDir()
 	fset := token.NewFileSet()
 	pkgs, err := parser.ParseDir(fset, dir, nil, 0)
